@@ -407,6 +407,10 @@ def from_ast(node, env=None, leaf=None, ring=P):
                 rp = r.n if isinstance(r, Rat) else r
                 if not rp.t:
                     return lift(P.const(1))
+                if set(rp.t) == {()} and rp.t[()] == Fraction(1, 2):
+                    base = l.n if isinstance(l, Rat) and l.d == P.const(1) else l
+                    if isinstance(base, P):
+                        return lift(P.sym('sqrt(%s)' % nfs(base)))
                 if set(rp.t) != {()} or rp.t[()].denominator != 1:
                     raise Unsupported('non-integer power: ' + ast.unparse(n))
                 return l ** int(rp.t[()])
